@@ -4,21 +4,24 @@ from vlib import std, lab, common, hbuild, recipes, corr
 
 PID = "C12"
 META = {
-    "text": "Theorems (Properties_C12.v, 13, closed under the global context) about the transcribed decision code "
+    "text": "Theorems (Properties_C12.v, 11, closed under the global context) about the transcribed decision code "
             "(hdrExpirationTime, timestampsSet, refreshStaleness, refreshCheck, refreshIsCachable, the cacheHit and "
             "haveParsedReplyHeaders dispatch), for ALL replies, times, requests, response delays and ALL heuristic factors: "
-            "the stored expiry never exceeds receipt + explicit lifetime (s-maxage, else max-age, else Expires-Date); once that "
-            "instant has passed a request without max-stale is never answered from the cache under any configuration without "
-            "override-expire/offline_mode (per decision and, by induction with the store invariant, at every step of every request "
-            "history on a URL); Cache-Control no-cache / max-age=0 requests always reach the origin; stale must-revalidate / "
-            "proxy-revalidate responses are never served, max-stale or not; refreshCheck answers 'fresh' only in an explicit list "
-            "of situations; conversely a plain request before the stored expiry is a hit. Three statements are PARTIAL and the "
-            "full-strength versions are REFUTED with witnesses confirmed on the running proxy (known findings): a negative computed "
-            "expiry is read as 'no expiry' (Date ahead of the proxy clock + Expires at the epoch + Last-Modified), an unparsable "
-            "Expires with a Date older than 24 h yields a lifetime of now-Date, and request max-age=0 is ignored for immutable "
-            "responses. Tie: reason codes, the implicit default rule and 600 lm-factor products regenerated from refresh.cc; the "
-            "default directive values read back from the running proxy's cache manager; the extracted model diffed against the "
-            "real squid (built from the working tree) on generated request histories under a clock scripted to the exact second.",
+            "the stored expiry never exceeds receipt + explicit lifetime (s-maxage, else max-age, else Expires-Date; 0 for an "
+            "unparsable Expires) and is never negative; once that instant has passed a request without max-stale is never answered "
+            "from the cache under any configuration without override-expire/offline_mode (per decision and, by induction with "
+            "the store invariant, at every step of every request history on a URL); stale must-revalidate / proxy-revalidate "
+            "responses are never served, max-stale or not; Cache-Control no-cache / max-age=0 requests always reach the origin "
+            "(PARTIAL for max-age=0: not when the cached reply is immutable - REFUTED at full strength, known finding, deliberate "
+            "per RFC 8246); refreshCheck answers 'fresh' only in an explicit list of situations; conversely a plain request before "
+            "the stored expiry is a hit. Remaining hypotheses of the positive theorems: the property's own exceptions (max-stale, "
+            "override/offline configuration), the parser invariant that a recorded max-age is >= 0, and now + min-fresh < 2^31. "
+            "Two earlier counterexamples (negative computed expiry read as 'no expiry'; unparsable Expires with a Date older than "
+            "24 h) are repaired in /repo and are now regression cases. Tie: reason codes, the implicit default rule and 600 "
+            "lm-factor products regenerated from refresh.cc; the default directive values read back from the running proxy's "
+            "cache manager; Squid's reply parser + hdrExpirationTime compiled from the working tree (harness) against the model; "
+            "the extracted model diffed against the real squid (built from the working tree) on generated request histories "
+            "under a clock scripted to the exact second, also under two override configurations.",
     "note": "partial: the theorems are about the transcribed functions (RefreshModel.v); that the event-driven proxy applies exactly "
             "these decisions (store lookup, cacheHit, processExpired, timestampsSet on every fetch, replacement of the cached entry "
             "on each origin contact) rests on the end-to-end correspondence (forward-proxy GET, 200 replies, memory cache, default "
@@ -425,9 +428,9 @@ def explicit_lifetime(rep, recv):
 
 
 def defect_tag(rep):
-    """names the two known ways a reply's explicit lifetime gets lost (independent of the model): an Expires date in the
-    first day of the epoch together with a Date ahead of the proxy's clock or an Age header (the computed expiry goes
-    negative), and an unparsable Expires together with a Date more than 24 h old"""
+    """names two formerly known ways a reply's explicit lifetime got lost (both repaired in /repo; a reappearance is a
+    violation): an Expires date in the first days of the epoch together with a Date ahead of the proxy's clock or an Age
+    header (the computed expiry went negative), and an unparsable Expires together with a Date more than 24 h old"""
     ex = rep.get("expires")
     if ex and rep.get("smaxage") is None and rep.get("maxage") is None:
         if ex[0] == "bad" and rep.get("date") is not None and rep["date"] < -86400:
@@ -460,6 +463,11 @@ def oracle(s, obs):
             if got != now + rep["date"] + L:
                 return ("oracle:header-expiry", "hdrExpirationTime gives %d for %s at %d; Date + lifetime = %d"
                         % (got, json.dumps(rep), now, now + rep["date"] + L))
+        if ex and ex[0] == "bad" and rep.get("smaxage") is None and rep.get("maxage") is None:
+            want = now + rep["date"] if rep.get("date") is not None else now
+            if got != want:
+                return ("oracle:header-expiry:unparsable-expires", "hdrExpirationTime gives %d for the unparsable Expires of %s at %d; "
+                        "'expires immediately' means %d" % (got, json.dumps(rep), now, want))
         if L is None and got != -1:
             return ("oracle:header-expiry", "hdrExpirationTime gives %d for a reply without explicit lifetime %s" % (got, json.dumps(rep)))
         return None
